@@ -18,6 +18,7 @@ mod h3cli;
 mod c03;
 mod c04;
 mod c05;
+mod c05live;
 mod c06;
 mod c07;
 mod c07socks;
@@ -103,6 +104,7 @@ fn main() {
         "c10" | "c01" => c10::run(&mut ctx),
         "c02h3" => c02h3::run(&mut ctx),
         "c10h3" | "c01h3" => c10::run_h3(&mut ctx),
+        "c05live" => c05live::run(&mut ctx),
         "c14est" => c10::run_establish(&mut ctx),
         "c14live" => c14live::run(&mut ctx),
         "c11" => c11::run(&mut ctx),
